@@ -8,6 +8,7 @@ import Orda.Proofs.Rga
 import Orda.Proofs.RgaFull
 import Orda.Proofs.DocArr
 import Orda.Proofs.ListNetOrder
+import Orda.Proofs.DocNetOrder
 namespace Orda.Props.C04
 open Orda
 
@@ -139,5 +140,25 @@ open Orda.LNet in
 /-- every reachable state can be continued to a quiescent one (where all replicas hold one state: C01) -/
 theorem quiescence_is_reachable (cuid : Nat → String) (n : Nat) (net : LNet.Net) (h : LNet.Reach cuid n net) :
     ∃ net', LNet.Reaches net net' ∧ LNet.Quiescent net' := lnet_can_quiesce h
+
+/-! ### Document arrays END TO END (`DNet`, Proofs/DocNetOrder) -/
+
+open Orda.DNet Orda.DA in
+/-- at EVERY moment, on ANY two replicas, for ANY array node of the document, any two slots present on both appear in the
+    same relative order -/
+theorem doc_array_same_relative_order_everywhere (cuid : Nat → String) (n : Nat) (net : DNet.Net) (h : DNet.Reach cuid n net)
+    (i j : Nat) (di dj : Doc) (p x y : Ts) (hi : Holds net i di) (hj : Holds net j dj)
+    (hxi : x ∈ slotIds di p) (hyi : y ∈ slotIds di p) (hxj : x ∈ slotIds dj p) (hyj : y ∈ slotIds dj p) :
+    ([x, y].Sublist (slotIds di p) ↔ [x, y].Sublist (slotIds dj p)) :=
+  dnet_same_relative_order_everywhere h i j di dj p x y hi hj hxi hyi hxj hyj
+
+open Orda.DNet Orda.DA in
+/-- no step removes or reorders a slot of any array on any replica, none revives a deleted slot, and no slot occurs twice -/
+theorem doc_array_no_step_loses_reorders_or_resurrects (cuid : Nat → String) (n : Nat) (net net' : DNet.Net)
+    (h : DNet.Reach cuid n net) (hs : DNet.Step net net') (i : Nat) (d d' : Doc) (p : Ts)
+    (hd : Holds net i d) (hd' : Holds net' i d') :
+    (slotIds d p).Sublist (slotIds d' p) ∧ (∀ o, slotDead d p o → slotDead d' p o) ∧ (slotIds d p).Nodup :=
+  ⟨dnet_step_only_adds_slots h hs i d d' p hd hd', fun o ho => dnet_step_keeps_deleted_slots h hs i d d' p o hd hd' ho,
+   dnet_slots_nodup h i d p hd⟩
 
 end Orda.Props.C04
